@@ -1,6 +1,47 @@
 /-
   C19 -- the orchestration script resumes correctly after an interruption at any point.
 
+  CLAUSE MAP (property text -> theorems; all about `examine` / `planStep` / `invoke` / `runSched` / `runProcs` of
+  `Model/Orchestrator.lean`, the definitions `driver_c19` executes)
+
+  quantifier
+   * "whatever point ... between or during directory creation, during a pipeline run with partially published outputs, just
+     after a step completes", "sequences of interruptions": a schedule `List (Option Nat)` interrupts every call after any
+     number of atomic actions (each mkdir level, each unlink/rmdir, each published file); ANY number of interruptions --
+     every theorem below is for all `sched` / `scheds`.
+   * "batch sizes 1..4, any number of plates": all `cfg.B ≥ 1`, all pipelines `cfg.pubs` (any number of steps).
+   * "retrospective and prospective modes": retrospective unconditional given `MarkerLast`; prospective under `MarkerLast`
+     (`…_partial`, `C19_same_as_uninterrupted_prospective`) -- the hypothesis fails for prospective/main.nf: known finding,
+     `C19_prospective_marker_first_counterexample(_batch2)`, `demo_not_markerLast_prosp`.
+   * `MarkerLast` itself: `C19_visible_outputs_before_marker` (every valid execution order of the workflow graphs as wired
+     in the .nf files produces everything the script can see before the marker), `C19_driver_pipeline_markerLast` (the
+     pipeline the driver runs), `sim_markerLast` (the concrete simulation).  Trusted: that the .nf wiring is transcribed
+     correctly and nextflow publishes a process's outputs after its inputs.
+  clauses
+   1 "rerunning it (after removing any directory it explicitly names as incomplete) continues the simulation"
+        -> `C19_resume` / `C19_resume_partial` (`Resumed`: directory = uninterrupted directory + at most one marker-less piece
+           of junk), `C19_examine_correct` (what the scan answers on every such directory; names exactly the partial plate
+           directory), `C19_examine_next_is_generated` + `C19_next_step_arithmetic_generated` (next step = the translated
+           Python arithmetic on the last completed step, empty iteration directory included).
+   2 "every step that is executed receives the same inputs ... as in an execution that was never interrupted"
+        -> `Resumed.launched`, `C19_same_as_uninterrupted` (retrospective, against actual uninterrupted `runSched`),
+           `C19_same_as_uninterrupted_prospective` (against actual uninterrupted process runs `usched`); what the inputs ARE:
+           `C19_later_plate_inputs` (chains of plate_0 of the iteration, excludes = earlier selections),
+           `C19_first_plate_test_screen`, `C19_prospective_launch_screen`.
+   3 "and records the same selection" -> `pubs` is a function of the launch record; `Resumed`: completed launches = `p.flat`
+        of the uninterrupted run and the directory holds `cfg.pubs l` for each (`treeIters`).
+   4 "No completed step is ever deleted" -> `Resumed`: no `scriptRemoved` event at all, `UserSafe` (a named directory never
+        belongs to a completed step).
+   5 "or executed twice" / 6 "no step index is skipped" -> `Resumed`: completed steps numbered 0,1,2,...;
+        `C19_launch_order(_partial)`: every launch, completed or interrupted, is for step number "steps completed before it".
+   7 "a step is never started from a screen other than the output of its immediate predecessor"
+        -> `C19_predecessor`, `C19_every_launch_from_predecessor` (every launch of every execution, step number exactly one
+           less); prospective mode starts every step from the user's screen (`C19_prospective_launch_screen`).
+   + the run ends: `C19_simulation_terminates_all_revealed` (concrete reveal-one-plate-per-step instance).
+   + regression of the repaired defect: `C19_examineOld_counterexample`.
+  harness-only: that the model IS the script (glob/os/shutil semantics, the scan loops; tie on every interruption point) --
+  except the next-step arithmetic, which is translated; that the real CLIs behave like the concrete pipeline (system stream).
+
   Model: `Batchie/Model/Orchestrator.lean` (`examine`, `planStep`, `invoke`, `runSched`; validated against
   `nextflow/scripts/batchie.py` on every run by `harness/c19.py`).  Vocabulary used in the statements:
 
@@ -29,6 +70,8 @@ import Batchie.Lemmas.OrchGenerated
 import Batchie.Lemmas.OrchFake
 import Batchie.Lemmas.OrchInputs
 import Batchie.Lemmas.OrchProgress
+import Batchie.Lemmas.OrchProcs
+import Batchie.Lemmas.OrchDag
 
 namespace Batchie.Props.C19
 open Batchie.Orchestrator
@@ -309,6 +352,74 @@ theorem C19_same_as_uninterrupted (cfg : Cfg) (hmode : cfg.mode = .retrospective
       rw [hu', hla', Prog.flat_push]
       simp
   · rw [hu, ht, cleanTree_eq]
+
+/-- **prospective mode, under "marker last"** -- the analogue of `C19_same_as_uninterrupted`: an uninterrupted prospective
+    execution is one process run per iteration (`usched`: `B` uninterrupted calls each, `main`'s loop ending by itself after
+    the last plate of the batch, plus the calls of the current iteration).  For ANY process runs with ANY interruptions there
+    is such an uninterrupted execution that has completed exactly the same steps with the same launch records (same order,
+    each once); every launch ever made -- interrupted ones included -- is a launch of it or of the uninterrupted execution
+    one step further; and the directory is the uninterrupted one plus at most one marker-less piece of junk. -/
+theorem C19_same_as_uninterrupted_prospective (cfg : Cfg) (hmode : cfg.mode = .prospective) (hB : 1 ≤ cfg.B)
+    (hml : MarkerLast cfg) (scheds : List (List (Option Nat))) :
+    ∃ p : Prog, CRun cfg p ∧
+      completedOf (runProcs cfg scheds Tree.empty []).2 = completedOf (runProcs cfg (usched cfg.B p) Tree.empty []).2 ∧
+      launchedOf (runProcs cfg (usched cfg.B p) Tree.empty []).2 = completedOf (runProcs cfg (usched cfg.B p) Tree.empty []).2 ∧
+      (∀ l ∈ launchedOf (runProcs cfg scheds Tree.empty []).2,
+        l ∈ launchedOf (runProcs cfg (usched cfg.B p) Tree.empty []).2 ∨
+        (CRun cfg (p.push cfg.B l) ∧ l ∈ launchedOf (runProcs cfg (usched cfg.B (p.push cfg.B l)) Tree.empty []).2)) ∧
+      (∃ jk, JunkOK jk ∧ (runProcs cfg scheds Tree.empty []).1.iters = treeIters cfg p jk ∧
+        (runProcs cfg (usched cfg.B p) Tree.empty []).1.iters = treeIters cfg p .none) := by
+  obtain ⟨p, jk, h⟩ := runProcs_inv cfg hml hB scheds (GI.init cfg)
+  obtain ⟨ht, hco, hla⟩ := uninterrupted_procs cfg hml hB hmode h.crun
+  refine ⟨p, h.crun, ?_, ?_, ?_, ⟨jk, h.junk, h.iters, ?_⟩⟩
+  · rw [hco, h.comp]
+  · rw [hla, hco]
+  · intro l hl
+    rcases h.launched l hl with h1 | ⟨hnf, hpl⟩
+    · left; rw [hla]; exact h1
+    · right
+      have hc' := CRun.push h.crun hnf hpl
+      refine ⟨hc', ?_⟩
+      rw [(uninterrupted_procs cfg hml hB hmode hc').2.2, Prog.flat_push]
+      simp
+  · rw [ht, cleanTree_eq]
+
+/-- prospective mode has no "output screen of the predecessor": every step is started from the user's screen (the clause
+    "never started from a screen other than the output of its immediate predecessor" is about retrospective mode, where it is
+    `C19_every_launch_from_predecessor`) -/
+theorem C19_prospective_launch_screen (cfg : Cfg) (hmode : cfg.mode = .prospective) {p : Prog} {l : Launch}
+    (hl : planLaunch cfg p = .ok l) : l.screen = none ∧ l.test = none := by
+  unfold planLaunch launchOf at hl
+  rw [hmode] at hl
+  simp only at hl
+  split at hl
+  · injection hl with hl; subst hl; exact ⟨rfl, rfl⟩
+  · split at hl
+    · cases hl
+    · injection hl with hl; subst hl; exact ⟨rfl, rfl⟩
+
+/-- the hypotheses of `C19_same_as_uninterrupted_prospective` are satisfiable (prospective mode, marker-last variant of the
+    driver's pipeline) -/
+example : ∃ cfg : Cfg, cfg.mode = .prospective ∧ 1 ≤ cfg.B ∧ MarkerLast cfg :=
+  ⟨⟨.prospective, 2, fakePubs ⟨3, 2, 2, 0, false⟩⟩, rfl, by decide, fakePubs_markerLast _ _ _ (Or.inr rfl)⟩
+
+/-! ## where "marker last" comes from -/
+
+/-- **`MarkerLast` for the workflows as wired in the .nf files**: in the dependency graph of RUN_RETROSPECTIVE_STEP +
+    RETROSPECTIVE (`next = false`) and of SELECT_NEXT_BATCH_PLATE + NEXT_BATCH_PLATE (`next = true`), executed in ANY order
+    compatible with the dependencies, every process whose output a glob of the script can match (PREPARE: training / test
+    screen, TRAIN_MODEL: thetas, CALCULATE_DISTANCE_MATRIX_CHUNK, SELECT_NEXT_PLATE: selected_plate, REVEAL_PLATE: advanced
+    screen) -- and every score chunk -- has run before EXTRACT_SCREEN_METADATA starts.  Only EVALUATE_MODEL /
+    ANALYZE_MODEL_EVALUATION are not forced before it (`Lemmas/OrchDag.lean` has a valid order with both after the marker):
+    the model's `pubs` is the run up to the marker, which loses nothing the script can see. -/
+theorem C19_visible_outputs_before_marker (w : Wf) (hck : 1 ≤ w.nck) {order : List Proc} (hv : ValidOrder w order)
+    {m : Nat} (hm : order[m]? = some .mark) :
+    (∃ j, j < m ∧ order[j]? = some .reveal) ∧ (∃ j, j < m ∧ order[j]? = some .select) ∧
+    (∀ k, k < w.nck → ∃ j, j < m ∧ order[j]? = some (.score k)) ∧
+    (w.next = false → (∀ c, c < w.nch → ∃ j, j < m ∧ order[j]? = some (.train c)) ∧
+      (∀ k, k < w.nck → ∃ j, j < m ∧ order[j]? = some (.dist k)) ∧
+      (w.init = true → 1 ≤ w.nch → ∃ j, j < m ∧ order[j]? = some .prepare)) :=
+  visible_before_marker w hck hv hm
 
 /-! ## the executions the driver replays are instances of the theorems -/
 
